@@ -441,6 +441,44 @@ def _posixpath_probe(tier="quick", seed=0):
         dir_, _, fn = n.rpartition("/")
         if str(u) != n or u.membername != n[1:] or u.filename != fn or u.baseURI != (dir_ or "/") or u.rels_uri != (dir_.rstrip("/") + "/_rels/" + fn + ".rels"):
             bad = bad or "PackURI(%r): str %r, membername %r, filename %r, baseURI %r, rels_uri %r" % (n, str(u), u.membername, u.filename, u.baseURI, u.rels_uri)
+    # names with characters a URI would escape: relative_ref writes the name as it is and from_rel_ref reads it as it is, so the pair
+    # stays inverse (the reference is what ends up in a relationship's Target; the member keeps the name)
+    for p_, q_ in (("/ppt/slides/slide1.xml", "/ppt/media/company logo.png"), ("/ppt/slides/my slide.xml", "/ppt/media/100%.png"), ("/ppt/slides/slide1.xml", "/ppt/media/\u00e9t\u00e9 #1.png"),
+                   ("/a b/c.xml", "/a b/d e/f?g.bin"), ("/ppt/slides/slide1.xml", "/ppt/media/intro.mp4 copy")):
+        evals += 1
+        base_ = PackURI(p_).baseURI
+        rel_ = PackURI(q_).relative_ref(base_)
+        if PackURI.from_rel_ref(base_, rel_) != q_ or rel_ != __import__("posixpath").relpath(q_, base_):
+            bad = bad or "P=%r Q=%r: relative_ref gives %r, which resolves to %r" % (p_, q_, rel_, str(PackURI.from_rel_ref(base_, rel_)))
+    # the same on a real package, where names change while it is open: every relationship's reference resolves to the name its target has
+    # NOW -- before the slide parts are renamed (first access to .slides), after it, and after a save in between
+    try:
+        import io as _io
+
+        from pptx import Presentation as _Prs
+
+        from .c06 import _awkward_deck
+
+        deck_ = _awkward_deck()
+    except Exception:
+        deck_ = None
+    if deck_ is not None:
+        for save_first in (False, True):
+            prs_ = _Prs(_io.BytesIO(deck_))
+            stages = [("as opened", lambda: None), ("after a save", lambda: prs_.save(_io.BytesIO())) if save_first else ("as opened again", lambda: None),
+                      ("after the slide parts were renamed", lambda: list(prs_.slides)), ("after another save", lambda: prs_.save(_io.BytesIO()))]
+            for label_, act_ in stages:
+                act_()
+                pkg_ = prs_.part.package
+                for src_ in [pkg_] + list(pkg_.iter_parts()):
+                    base_ = "/" if src_ is pkg_ else src_.partname.baseURI
+                    for rel_ in (src_._rels if hasattr(src_, "_rels") else src_.rels).values():
+                        if rel_.is_external:
+                            continue
+                        evals += 1
+                        if PackURI.from_rel_ref(base_, rel_.target_ref) != rel_.target_part.partname:
+                            bad = bad or "deck with slide parts named 7, 3, 9, %s%s: relationship %s of %s has reference %r, its target is named %s" % (
+                                label_, " (saved once before)" if save_first else "", rel_.rId, getattr(src_, "partname", "/"), rel_.target_ref, rel_.target_part.partname)
     ob = {"name": "C19.posixpath_probe", "base": "C19.posixpath_probe", "kind": "bounded", "status": "refuted" if bad else "discharged", "backend": "native", "time": 0, "path": 0}
     if bad:
         ob["replay"] = {"confirmed": True, "witness_class": "packuri-native", "detail": bad}
